@@ -622,7 +622,8 @@ int main(int argc, char **argv)
         }
     }
     const size_t NB = EXES.size();
-    CHUNK = std::max(64LL, std::min(1024LL, NCALLS / 200)); // >= 64 chunks so that all workers are used; deterministic per tier
+    // ~96 (quick) / ~256 (thorough) chunks: every worker is used and few processes are spawned; deterministic per tier
+    CHUNK = std::max(64LL, (NCALLS + (thorough ? 256 : 96) - 1) / (thorough ? 256 : 96));
     const long long nchunks = (NCALLS + CHUNK - 1) / CHUNK;
 
     CaseSet cs;
@@ -886,9 +887,9 @@ static void build_alphabets(bool T)
     PM_A = rng(-3, 10);
     PM_M = rng(-5, T ? 64 : 40);
     LONGS = lst({"0", "1", "-1", "2", "-2", "3", "6", "-6", "4", "9223372036854775807", "-9223372036854775807", "-9223372036854775808"});
-    NR = lst({"0", "1", "2", "3", "4", "5", "7", "64", "100"});
+    NR = lst({"0", "1", "2", "3", "4", "5", "7", "64"});
     if (T)
-        for (const char *s : {"6", "10", "13", "63", "65", "127"}) // n = 1000 needs > 8 s per call on boostmp for anything above 2^89 (same root cause as perfect_power)
+        for (const char *s : {"6", "13", "100", "127"}) // n = 1000 needs > 8 s per call on boostmp for anything above 2^89 (same root cause as perfect_power)
             addu(NR, Z(s));
     U = rng(0, T ? 130 : 50);
     for (const char *s : {"63", "64", "90", "91", "92", "93", "94", "100", "128", "200", "500", "1000"})
@@ -1158,13 +1159,25 @@ static std::string powm_ref(CI a, CI e, CI m)
     mpz_powm(r.get_mpz_t(), a.z.get_mpz_t(), e.z.get_mpz_t(), m.z.get_mpz_t());
     return zs(r);
 }
+// boostmp's mp_root starts Newton's iteration at 1: cost grows like n * bits^2 big multiplications; calls in this class may exceed
+// CPU_LIMIT_S (finding); every call outside it stays far below the limit
+static bool slow_root(CI a, CI n)
+{
+    return n.sl >= 63 && mpz_sizeinbase(a.z.get_mpz_t(), 2) >= 400;
+}
+static std::string pp_tag(CI a)
+{
+    if (mpz_sizeinbase(a.z.get_mpz_t(), 2) <= 130)
+        return "";
+    return mpz_perfect_power_p(a.z.get_mpz_t()) ? "power>130bits" : "non-power>130bits";
+}
 static std::string root_pre(CI a, CI n)
 {
     if (n.z == 0)
         return "!raw-0th-root";
     if (a.z < 0 && n.sl % 2 == 0)
         return "!raw-even-root-of-negative";
-    return "";
+    return slow_root(a, n) ? "order>=63,bits>=400" : "";
 }
 static void groups_raw_pow()
 {
@@ -1250,7 +1263,7 @@ static void groups_raw_pow()
                mpz_sqrtrem(r.get_mpz_t(), m.get_mpz_t(), a.z.get_mpz_t());
                return "root=" + zs(r) + " rem=" + zs(m);
            });
-    add_un("mp_perfect_power_p", RP, [](CI a) -> std::string { return mpz_sizeinbase(a.z.get_mpz_t(), 2) > 130 && !mpz_perfect_power_p(a.z.get_mpz_t()) ? "non-power>130bits" : ""; }, [](CI a) { return B(mp_perfect_power_p(a.v)); },
+    add_un("mp_perfect_power_p", RP, pp_tag, [](CI a) { return B(mp_perfect_power_p(a.v)); },
            [](CI a) { return B(mpz_perfect_power_p(a.z.get_mpz_t()) != 0); });
     add_un("mp_perfect_square_p", Rt, nullptr, [](CI a) { return B(mp_perfect_square_p(a.v)); },
            [](CI a) { return B(mpz_perfect_square_p(a.z.get_mpz_t()) != 0); });
@@ -1606,7 +1619,9 @@ static void groups_public_integer()
                return "I:" + zs(r);
            });
     add_bin("i_nth_root", Rt, NR,
-            [](CI a, CI n) -> std::string { return n.z == 0 ? "n=0" : (a.z < 0 && n.sl % 2 == 0) ? "even-root-of-negative" : ""; },
+            [](CI a, CI n) -> std::string {
+                return n.z == 0 ? "n=0" : (a.z < 0 && n.sl % 2 == 0) ? "even-root-of-negative" : slow_root(a, n) ? "order>=63,bits>=400" : "";
+            },
             [](CI a, CI n) {
                 RCP<const Integer> r;
                 int ex = i_nth_root(outArg(r), *IN(a), (unsigned long)n.sl);
@@ -1621,7 +1636,7 @@ static void groups_public_integer()
             });
     add_un("perfect_square", Rt, nullptr, [](CI a) { return B(perfect_square(*IN(a))); },
            [](CI a) { return B(mpz_perfect_square_p(a.z.get_mpz_t()) != 0); });
-    add_un("perfect_power", PRF, [](CI a) -> std::string { return mpz_sizeinbase(a.z.get_mpz_t(), 2) > 130 && !mpz_perfect_power_p(a.z.get_mpz_t()) ? "non-power>130bits" : ""; },
+    add_un("perfect_power", PRF, pp_tag,
            [](CI a) { return B(perfect_power(*IN(a))); }, [](CI a) { return B(mpz_perfect_power_p(a.z.get_mpz_t()) != 0); });
     add_bin("Rational::from_two_ints(Integer,Integer)", A, A, zdiv_tag, [](CI a, CI b) { return K(Rational::from_two_ints(*IN(a), *IN(b))); },
             [](CI a, CI b) { return b.z == 0 ? std::string() : NK(mpq_class(a.z) / mpq_class(b.z)); });
@@ -2040,7 +2055,9 @@ static void groups_public_ntheory()
     add_bin("mp_polygonal_number,root", SIDES, A,
             [](CI, CI n) -> std::string { return n.z <= 0 ? "!documented-n>0" : ""; },
             [](CI s, CI n) { return S(mp_polygonal_number(s.v, n.v)) + " " + S(mp_principal_polygonal_root(s.v, n.v)); }, nullptr);
-    add_un("mp_perfect_power_decomposition", Rt, [](CI a) -> std::string { return (a.z <= 0 || mpz_sizeinbase(a.z.get_mpz_t(), 2) > 300) ? "!documented-positive-and-bounded" : ""; },
+    static size_t ppd_bits = 160;
+    ppd_bits = TIER == "thorough" ? 230 : 160; // bisection with full powers: seconds per call on boostmp above ~200 bits
+    add_un("mp_perfect_power_decomposition", Rt, [](CI a) -> std::string { return (a.z <= 0 || mpz_sizeinbase(a.z.get_mpz_t(), 2) > ppd_bits) ? "!documented-positive-and-bounded" : ""; },
            [](CI a) {
                auto p = mp_perfect_power_decomposition(a.v, false), q = mp_perfect_power_decomposition(a.v, true);
                return S(p.first) + "^" + S(p.second) + " " + S(q.first) + "^" + S(q.second);
